@@ -2,6 +2,8 @@
     Statements only; every proof is a one-line appeal to a lemma of proofs/. *)
 From DynVerif Require Import Base Graph Spec.
 From DynVerif.proofs Require Import CoreInv C01Facts.
+From DynVerif Require Import Rename.
+From DynVerif.proofs Require Import RenameCore RenameInjCore RenameInjConf.
 
 (** For every finite sequence of add_interaction calls [cs] on an empty removal-enabled graph of
     either class, with [h] the accepted calls: presence at every instant is the union of the spans. *)
@@ -49,3 +51,14 @@ Example C01_example :
   = [true;true;true;false;false;true;true;false].
 Proof. vm_compute. split; reflexivity. Qed.
 Print Assumptions C01_example.
+
+(** "any hashable node ids": the model codes node ids as integers; nothing depends on WHICH integers.  For every
+    injective re-coding f of the ids, the graph built by the re-coded calls answers has_interaction (and, by
+    [RenameInjCore], every other query) as the original does; outcomes of the calls are the same. *)
+Theorem C01_id_coding : forall f, inj f -> forall dir cs u v t,
+  has_interaction (run_calls (G0 dir) (map (ren_call f) cs)) (f u) (f v) t = has_interaction (run_calls (G0 dir) cs) u v t.
+Proof.
+  intros f Hf dir cs u v t. rewrite <- (renI_reach f Hf dir cs).
+  apply renI_has_interaction; [exact Hf|apply keys_norm_reach].
+Qed.
+Print Assumptions C01_id_coding.
